@@ -1,0 +1,55 @@
+// SPDX-FileCopyrightText: 2026 The Pion community <https://pion.ly>
+// SPDX-License-Identifier: MIT
+
+//go:build verif && verif_c14 && !js
+
+package webrtc
+
+import (
+	"crypto/x509"
+	"errors"
+
+	"github.com/pion/sdp/v3"
+)
+
+// VerifExtractFingerprint exposes extractFingerprint to the verification
+// harness (property C14).
+func VerifExtractFingerprint(desc *sdp.SessionDescription) (value, hash string, err error) {
+	return extractFingerprint(desc)
+}
+
+// VerifValidateFingerprint runs validateFingerPrint of a DTLSTransport whose
+// remote parameters carry the given fingerprints.
+func VerifValidateFingerprint(fingerprints []DTLSFingerprint, remoteCert *x509.Certificate) error {
+	t := &DTLSTransport{remoteParameters: DTLSParameters{Fingerprints: fingerprints}}
+
+	return t.validateFingerPrint(remoteCert)
+}
+
+// VerifVerifyPeerCertificate runs the DTLS VerifyPeerCertificate callback of a
+// DTLSTransport of this API whose remote parameters carry the given
+// fingerprints.
+func (api *API) VerifVerifyPeerCertificate(fingerprints []DTLSFingerprint, rawCerts [][]byte) error {
+	t := &DTLSTransport{api: api, remoteParameters: DTLSParameters{Fingerprints: fingerprints}}
+
+	return t.verifyPeerCertificateFunc()(rawCerts, nil)
+}
+
+// VerifFingerprintErrClass names the sentinel an extraction / validation
+// error is.
+func VerifFingerprintErrClass(err error) string {
+	switch {
+	case err == nil:
+		return ""
+	case errors.Is(err, ErrSessionDescriptionNoFingerprint):
+		return "no-fingerprint"
+	case errors.Is(err, ErrSessionDescriptionInvalidFingerprint):
+		return "invalid-fingerprint"
+	case errors.Is(err, errNoMatchingCertificateFingerprint):
+		return "no-matching-fingerprint"
+	case errors.Is(err, errNoRemoteCertificate):
+		return "no-remote-certificate"
+	default:
+		return "hash-error"
+	}
+}
